@@ -1,6 +1,7 @@
 #![allow(dead_code)]
 mod c03;
 mod c04;
+mod c08;
 mod c09;
 mod c10;
 mod c11;
@@ -38,6 +39,7 @@ fn main() {
         "bristol-corpus" => c11::cmd_corpus(rest),
         "bristol-mutate" => c11::cmd_mutate(rest),
         "literals-replay" => c09::cmd_replay(rest),
+        "arms-replay" => c08::cmd_replay(rest),
         "c16-replay" => c16::cmd_replay(rest),
         "c16-products" => c16::cmd_products(rest),
         "compile-one" => corpus::cmd_compile_one(rest),
